@@ -222,9 +222,18 @@ func (f *Fixer) applyLinterFixes(
 			break
 		}
 
+		// the locations of the violations reported refer to the contents that were linted, so
+		// once a file has been changed, any other violation in that file is left for the next
+		// iteration, where its location is again known to be correct
+		changedInIteration := make(map[string]struct{})
+
 		//nolint:gocritic
 		for _, violation := range rep.Violations {
 			file := violation.Location.File
+
+			if _, changed := changedInIteration[file]; changed {
+				continue
+			}
 
 			fixInstance, ok := f.GetFixForName(violation.Title)
 			if !ok {
@@ -286,6 +295,7 @@ func (f *Fixer) applyLinterFixes(
 
 			fixReport.AddFileFix(file, fixResult)
 
+			changedInIteration[file] = struct{}{}
 			fixMadeInIteration = true
 		}
 
